@@ -465,8 +465,71 @@ class SmHistory(History):
         self.on("sm")
         return x2
 
+    def shared_btc_scenario(self):
+        """two ALT forks whose VTBs reference the SAME BTC block from VBK blocks of different heights: chain B: b1
+        carries a VTB whose block of proof is the shared BTC block s; b2 carries a VTB that connects only through s
+        (empty BTC context); b3 carries an ATV so that B scores. Fork A: a1 carries a VTB whose BTC context contains
+        s again (second reference to s, from another VBK height; mined before or after B's second VTB). B is
+        validated, A activated, B compared against A (the winner stays applied while the loser is reverted underneath
+        it: non-LIFO release of A's reference), then the instance walks back and forth and re-activates."""
+        g, r = self.g, self.r
+        if getattr(g, "early", None) or getattr(g, "shared", None) or getattr(g, "no_vtb", False):
+            return None
+        fork = self.pick_parent()
+        if any(x in g.planted_blocks for x in g.ancestry(fork)):
+            return None
+        pool = g.vtb_pool(g.alt[fork]["kv"])
+        if not pool:
+            return None
+        base = g.best_known_btc(fork)
+        if base not in g.bpath(None, g.btip) and base != "b0":
+            return None
+        kvf = g.alt[fork]["kv"]
+
+        def endorsable():
+            # recomputed for every VTB: the VBK tip moves on, endorsements must stay inside the settlement interval;
+            # the parent of the containing block is delivered by the same ALT block and always endorsable
+            return g.vtb_pool(kvf) or [g.vtip]
+        wb1 = g.make_vtb(r.choice(endorsable()), base)
+        s_blk = g.vtb[wb1]["bop"]
+        for _ in range(r.below(3)):
+            g.mine_vbk()
+        order = ["b2", "a"] if r.chance(1, 2) else ["a", "b2"]
+        wb2 = wa = None
+        for o in order:
+            if o == "b2":
+                wb2 = g.make_vtb(r.choice(endorsable() + [g.vtip]), s_blk)
+            else:
+                wa = g.make_vtb(r.choice(endorsable()), base)
+            for _ in range(r.below(3)):
+                g.mine_vbk()
+        b1 = g.build_from(fork, [wb1], [], ())
+        b2 = g.build_from(b1, [wb2], [], ())
+        b3 = g.build_from(b2, [], [g.make_atv(r.choice([b1, b2])) for _ in range(r.range(1, 2))], ())
+        a1 = g.build_from(fork, [wa], [], ())
+        a2 = g.build_from(a1, [], [g.make_atv(a1)] if r.chance(1, 3) else [], ())
+        g.shared = (fork, [b1, b2, b3], [a1, a2])
+        self.show(b3, order="inorder")
+        self.show(a2, order="inorder")
+        self.on("set", b3)
+        self.on("set", r.choice([a1, a2]))
+        self.on("cmp", b3)
+        self.on("sm")
+        self.on("set", r.choice([b1, fork]))
+        self.on("set", b3)
+        self.on("sm")
+        self.on("react")
+        for _ in range(r.below(3)):
+            self.on(r.choice(["set", "cmp"]), r.choice([fork, b1, b2, b3, a1, a2]))
+        self.on("react")
+        self.on("sm")
+        return b3
+
     def step(self):
         r = self.r
+        if getattr(self, "shared_pct", 0) and r.chance(self.shared_pct, 100):
+            if self.shared_btc_scenario() is not None:
+                return
         if self.planted and r.chance(self.planted, 100):
             if getattr(self, "early_pct", 0) and r.chance(self.early_pct, 100):
                 if self.early_scenario() is not None:
@@ -849,6 +912,7 @@ def gen_c02(ctx, sc, n_shapes, maxn, maxg, n_random):
     for _ in range(n_random):
         g = SmGen(r.fork(), small_cfg(r))
         H = SmHistory(g, planted=30, destructive=False)
+        H.shared_pct = 8
         for i in range(30):
             H.step()
             if i % 5 == 4:
@@ -1006,6 +1070,7 @@ def gen_c20(ctx, sc, n_hist, steps):
         destructive = (k % 2 == 1)
         H = SmHistory(g, planted=35, destructive=destructive)
         H.early_pct = 12
+        H.shared_pct = 8
         for i in range(steps):
             H.step()
             if r.chance(1, 8):
@@ -1304,6 +1369,8 @@ def gen_c01(ctx, sc, n_hist, steps, sp_forks=0):
         if spf:
             g.no_vtb = True
         early_at = r.below(steps) if (not spf and k % 4 == 1) else -1
+        if not spf and k % 4 == 3:
+            H.shared_pct = 10
         for i in range(steps):
             if spf and fork_tips is None and i >= steps // 4 and g.vbk[g.vtip]["height"] >= 3:
                 # start a second VBK fork a few blocks behind the tip
